@@ -6,14 +6,17 @@ package sim
 import (
 	"crypto"
 	"crypto/ecdsa"
+	"crypto/ed25519"
 	"crypto/rand"
 	"crypto/rsa"
+	"crypto/sha256"
 	"crypto/x509"
 	"crypto/x509/pkix"
 	"embed"
 	"encoding/pem"
 	"fmt"
 	"math/big"
+	"strings"
 	"sync"
 	"time"
 )
@@ -44,6 +47,14 @@ func K(name string) *Key {
 	keyMu.Lock()
 	defer keyMu.Unlock()
 	if k, ok := keys[name]; ok {
+		return k
+	}
+	if strings.HasPrefix(name, "ed") {
+		// Ed25519 keys (ed1, ed2, ...): such certificates appear in IdP metadata next to the signing certificate; no
+		// XML-DSig method uses them, they only count as members of a store
+		seed := sha256.Sum256([]byte("verif-" + name))
+		k := &Key{Name: name, Signer: ed25519.NewKeyFromSeed(seed[:])}
+		keys[name] = k
 		return k
 	}
 	b, err := keyFS.ReadFile("keys/" + name + ".pem")
